@@ -1,4 +1,4 @@
-CONSTANTS Tokens = {"-", "a", "@", ":", "/", "o", "="}
+CONSTANTS Tokens = {"-", "a", "@", "/", "o", " ", "TAB", "LF"}
   SshBox <- ThoroughSsh
   DockerBox <- ThoroughDocker
 SPECIFICATION Spec
